@@ -30,7 +30,7 @@ def rows : List Row := [
   ⟨"F03g", "AssertionError", "xpath1/_xpath1_functions.py:evaluate__ceiling_and_floor_functions", ["floor", "ceiling"], 0⟩,
   ⟨"F03g", "AssertionError", "xpath1/_xpath1_functions.py:evaluate__round", ["round"], 0⟩,
   ⟨"F03g", "AssertionError", "xpath30/_xpath30_functions.py:__call__", ["function"], 0⟩,
-  ⟨"F03g", "AssertionError", "xpath_tokens/tokens.py:nud", ["Q{"], 0⟩,
+  ⟨"F03g", "AssertionError", "xpath_tokens/tokens.py:nud", ["Q{", "{"], 0⟩,
   ⟨"F03g", "AttributeError", "collations.py:__init__", ["compare"], 0⟩,
   ⟨"F03g", "TypeError", "xpath2/_xpath2_functions.py:evaluate__years_from_duration", ["years-from-duration"], 0⟩,
   ⟨"F03g", "AttributeError", "xpath_tokens/tokens.py:led", ["NOTATION"], 0⟩,
@@ -48,6 +48,8 @@ def rows : List Row := [
   ⟨"F03g", "IndexError", "xpath30/xpath30_helpers.py:format_digits", ["format-integer"], 0⟩,
   ⟨"F03g", "TypeError", "xpath30/xpath30_helpers.py:roman_num", ["format-integer"], 0⟩,
   ⟨"F03g", "AssertionError", "xpath_tokens/functions.py:to_partial_function", ["?"], 0⟩,
+  -- (schema-bound parser: static evaluation over the schema context passes schema nodes as positions)
+  ⟨"F03g", "TypeError", "xpath31/_xpath31_functions.py:evaluate__array_subarray", ["subarray"], 0⟩,
   -- F03h: numeric / temporal overflow and runaway computations are not caught
   ⟨"F03h", "OverflowError", "xpath2/_xpath2_operators.py:evaluate__range_expression", ["to"], 0⟩,
   ⟨"F03h", "OverflowError", "xpath30/_xpath30_functions.py:evaluate__exp", ["exp"], 0⟩,
